@@ -63,8 +63,12 @@ SelOK(e, dev) ==
 
 \* deviations that apply to this event, and whether they explain the observation exactly
 Devs(e) == (IF F8Chain(e.chain) THEN {"f8"} ELSE {}) \cup (IF F13Applies(e) THEN {"f13"} ELSE {})
-Explained(e) == Devs(e) # {} /\ SelOK(e, Devs(e))
-Tags(e) == IF Explained(e) THEN Devs(e) ELSE {}
+           \cup (IF F15Chain(e.chain) THEN {"f15"} ELSE {})
+\* (a deviation that applies by shape need not manifest: e.g. the key of a Delete is added before the
+\* soft-delete grouping; so any non-empty subset of the applicable deviations may explain the event)
+Explaining(e) == {D \in SUBSET Devs(e) : D # {} /\ SelOK(e, D)}
+Explained(e) == Explaining(e) # {}
+Tags(e) == IF Explained(e) THEN CHOOSE D \in Explaining(e) : \A D2 \in Explaining(e) : Cardinality(D) <= Cardinality(D2) ELSE {}
 
 TInit == l = 1 /\ tblS = <<>> /\ tblP = <<>> /\ bad = <<>>
 
@@ -81,7 +85,7 @@ QueryEvent ==
      IN bad' = IF sel /\ leak /\ guard THEN bad
                ELSE Append(bad, [i |-> l, case |-> e.case, sel |-> sel, leak |-> leak, guard |-> guard,
                                  lead_or |-> LeadingOr(e.chain),
-                                 f8 |-> ("f8" \in Tags(e)), f13 |-> ("f13" \in Tags(e)), f15 |-> F15Chain(e.chain)])
+                                 f8 |-> ("f8" \in Tags(e)), f13 |-> ("f13" \in Tags(e)), f15 |-> ("f15" \in Tags(e))])
   /\ l' = l + 1 /\ UNCHANGED <<tblS, tblP>>
 
 Finish ==
